@@ -164,6 +164,12 @@ class Table:
                 for a in args[1:]:
                     t = self.mk("xor", (t, a), "B")
                 return t
+            # numerals: (- k) and (/ a b) of numerals are constants (this is how opensmt prints negative and rational values)
+            if op == "minus" and len(args) == 1 and self.nodes[args[0]][0].startswith("num:"):
+                return self.mk("num:" + str(-Fraction(self.nodes[args[0]][0][4:])), (), self.sort(args[0]))
+            if op == "rdiv" and len(args) == 2 and all(self.nodes[a][0].startswith("num:") for a in args) \
+                    and Fraction(self.nodes[args[1]][0][4:]) != 0:
+                return self.mk("num:" + str(Fraction(self.nodes[args[0]][0][4:]) / Fraction(self.nodes[args[1]][0][4:])), (), "R")
             if op in BOOL_OPS:
                 return self.mk(op, args, "B")
             if op == "ite":
